@@ -18,6 +18,12 @@ class Fold:
         return {k[len(prefix):]: v for k, v in self.env.items() if isinstance(k, str) and k.startswith(prefix)}
 
 
+def _session(repo):
+    """module-level / class-level containers of the toolkit live as long as the process: all command folds of one run share
+    them (a command whose handling leaks into such state changes what a later witness command does - as in a real session)"""
+    return repo.__dict__.setdefault("_cmdfold_session", {})
+
+
 def fold_parse_cmd(repo, request, state=None, custom=None, hdr_ver=0, model_objects=False):
     """state: attribute values of the transceiver (running, ready, pwr_meas, ...); custom: what the
     transceiver-specific handler answers (None = unhandled)"""
@@ -77,6 +83,7 @@ def fold_parse_cmd(repo, request, state=None, custom=None, hdr_ver=0, model_obje
         calls.append(("measure", tuple(a), ()))
         return -77
     e = Ev(repo, ci.mod, env=env, self_cls=ci)
+    e.gstate = _session(repo)
     e.model_objects = model_objects
 
     def power(a, kw):
@@ -138,6 +145,7 @@ def fold_fake_cmd(repo, request, state=None):
         h.wants_kw = True
         return h
     e = Ev(repo, ci.mod, env=env, self_cls=ci)
+    e.gstate = _session(repo)
     e.hooks = {"self.ctrl_if.verify_cmd": verify, "self.tx_queue_clear": rec("tx_queue_clear"),
                "self.power_event_handler": rec("power_event_handler")}
     try:
@@ -197,6 +205,7 @@ def fold_freq_getter(repo, meth):
         env = {ps[1]: Opaque("FN"), "self._rx_freq": Opaque("self._rx_freq"), "self._tx_freq": Opaque("self._tx_freq"),
                "self.fh": None if state == "fixed" else Opaque("self.fh")}
         e = Ev(repo, ci.mod, env=env, self_cls=ci)
+        e.gstate = _session(repo)
 
         def res(a, calls=calls):
             calls.append(tuple(a))
